@@ -77,91 +77,92 @@ def run(rep, tier):
     prog = ep.endpoints_program()
     rep.bounds['requests'] = f'pairs of requests of equal shape (same multiplicities 0..2 of every source) per endpoint; values <= {L} symbolic bytes; safe arguments equal in both, all other bytes (incl. the auth header / cookie) arbitrary'
     for ename, e in ENDPOINTS.items():
-        it = ep.make_interp(prog)
-        it.models.insert(0, (__import__('re').compile(r'(?:core|std)::str::<impl str>::parse::<.*>'), M_parse_tracking, None))
-        dec = Decider(rep, it)
-        st = St()
-        spec = {'path': {}, 'query': {}, 'header': {}}
-        params = []
-        for kind, wire, log, ty, mode in e['args']:
-            if kind == 'auth':
-                p = ep.Param(st, ename + '_' + wire.replace('-', ''), len(ty) + 2, maxn=1, allow_nontext=True)
-                spec['header'][wire] = p
-            elif kind == 'header':
-                p = ep.Param(st, ename + '_' + wire.replace('-', ''), L, allow_nontext=True)
-                spec['header'][wire] = p
-            elif kind == 'path':
-                p = ep.Param(st, ename + '_' + wire, L, maxn=1)
-                st.pc.append(p.n == 1)
-                spec['path'][wire] = p
-            else:
-                p = ep.Param(st, ename + '_' + wire, L)
-                spec['query'][wire] = p
-            params.append(p)
-        base_pc = list(st.pc)
-        endpoint, req, ext, log = ep.build_request(it, st, spec, L)
-        fn = ep.handle_fn(prog, e['struct'])
-        outs = []
-        for s2, rv in it.run(fn, [endpoint, req, ext], st, ep.TENV):
-            rep.states += 1
-            if isinstance(rv, Unwind):
-                rep.inconc(f'C09 {ename}: unwind {rv.where}')
-                continue
-            if isinstance(rv, Panic):
-                continue                      # panics are C19's subject
-            kind, obs = observe(it, s2, rv, ext)
-            outs.append((s2, kind, obs, s2.deref(log)))
-        # primed copy of every input variable
-        allv, safev, shapev = [], [], []
-        for (kind, wire, lg, ty, mode), p in zip(e['args'], params):
-            allv += p.vars()
-            shapev.append(p.n)
-            if wire in SAFE_ARGS[ename]:
-                safev += p.vars()
-        mapping = [(v, z3.BitVec(str(v) + "'", v.size())) for v in allv]
-        prime = dict((str(a), b) for a, b in mapping)
-        agree = z3.And(*[v == prime[str(v)] for v in safev + shapev])
-        npairs = 0
-        for (s1, k1, o1, c1), (s2, k2, o2, c2) in itertools.combinations_with_replacement(outs, 2):
-            # across different paths only argument values in SafeParams are comparable (which error occurred is control flow, not
-            # data of an argument); error parameters and safe causes are compared between two runs of the same path
-            common = [k for k in o1 if k in o2 and (s1 is s2 or k.startswith('safe_params.'))]
-            if not common:
-                continue
-            npairs += 1
-            pc2 = [rename(c, mapping) for c in s2.pc]
-            diffs = []
-            for k in common:
-                diffs.append((k, differs(o1[k], rename(o2[k], mapping))))
-            cond = z3.And(*pc2, agree, z3.Or(*[d for _, d in diffs]))
-            m = dec.decide(f'{ename}:pair{npairs}:safe-observations-independent-of-unsafe-inputs', s1, cond, channels=common)
-            if m is not None:
-                leak = [k for k, d in diffs if z3.is_true(m.eval(d, True))]
-                if __import__('os').environ.get('C09_DEBUG'):
-                    for k in leak:
-                        print('DEBUG', k, repr(o1[k])[:300], '|||', repr(rename(o2[k], mapping))[:300])
-                report(rep, ename, e, params, m, prime, leak)
-        # positive part: decoded safe arguments are logged under their declared names
-        for (s1, k1, o1, c1) in outs:
-            if k1 == 'ok':
-                want = {'safe_params.' + lg for lg in SAFE_ARGS[ename].values()}
-                got = {k for k in o1 if k.startswith('safe_params.')}
-                if got != want:
-                    def names_battery(ename=ename, want=want):
-                        a = {'op': 'endpoint', 'endpoint': 'e1', 'path': {'pathWire': '37'}, 'query': [['queryWire', '61']], 'headers': [['x-foo', '37'], ['authorization', '42656172657220616263']]}
-                        b = {'op': 'endpoint', 'endpoint': 'e2', 'path': {'p': '78'}, 'query': [['optWire', '35']], 'headers': [['x-bar', '7a'], ['cookie', '544f4b454e3d616263']]}
-                        out = []
-                        for o, r in zip((a, b), replay([a, b])):
-                            keys = sorted('safe_params.' + x.split('=')[0] for x in r.get('safe_params', []))
-                            exp = sorted('safe_params.' + lg for lg in SAFE_ARGS[o['endpoint']].values())
-                            if not r.get('ok') or keys != exp:
-                                out.append(f'{o["endpoint"]}: native safe params {keys}, declared {exp} ({r.get("ok")})')
-                        return out
-                    rep.structural('C09:safe-params-names', f'endpoint {ename}: on success the safe-parameter set has keys {sorted(got)}, declared safe arguments are {sorted(want)}', {'got': sorted(got)}, names_battery)
-        rep.extra.setdefault('pairs', {})[ename] = npairs
-        if not npairs:
-            rep.inconc(f'vacuity: C09 {ename} compared no pair of outcomes')
-        finish_engine(rep, it)
+        with rep.part('endpoint ' + ename):
+            it = ep.make_interp(prog)
+            it.models.insert(0, (__import__('re').compile(r'(?:core|std)::str::<impl str>::parse::<.*>'), M_parse_tracking, None))
+            dec = Decider(rep, it)
+            st = St()
+            spec = {'path': {}, 'query': {}, 'header': {}}
+            params = []
+            for kind, wire, log, ty, mode in e['args']:
+                if kind == 'auth':
+                    p = ep.Param(st, ename + '_' + wire.replace('-', ''), len(ty) + 2, maxn=1, allow_nontext=True)
+                    spec['header'][wire] = p
+                elif kind == 'header':
+                    p = ep.Param(st, ename + '_' + wire.replace('-', ''), L, allow_nontext=True)
+                    spec['header'][wire] = p
+                elif kind == 'path':
+                    p = ep.Param(st, ename + '_' + wire, L, maxn=1)
+                    st.pc.append(p.n == 1)
+                    spec['path'][wire] = p
+                else:
+                    p = ep.Param(st, ename + '_' + wire, L)
+                    spec['query'][wire] = p
+                params.append(p)
+            base_pc = list(st.pc)
+            endpoint, req, ext, log = ep.build_request(it, st, spec, L)
+            fn = ep.handle_fn(prog, e['struct'])
+            outs = []
+            for s2, rv in it.run(fn, [endpoint, req, ext], st, ep.TENV):
+                rep.states += 1
+                if isinstance(rv, Unwind):
+                    rep.inconc(f'C09 {ename}: unwind {rv.where}')
+                    continue
+                if isinstance(rv, Panic):
+                    continue                      # panics are C19's subject
+                kind, obs = observe(it, s2, rv, ext)
+                outs.append((s2, kind, obs, s2.deref(log)))
+            # primed copy of every input variable
+            allv, safev, shapev = [], [], []
+            for (kind, wire, lg, ty, mode), p in zip(e['args'], params):
+                allv += p.vars()
+                shapev.append(p.n)
+                if wire in SAFE_ARGS[ename]:
+                    safev += p.vars()
+            mapping = [(v, z3.BitVec(str(v) + "'", v.size())) for v in allv]
+            prime = dict((str(a), b) for a, b in mapping)
+            agree = z3.And(*[v == prime[str(v)] for v in safev + shapev])
+            npairs = 0
+            for (s1, k1, o1, c1), (s2, k2, o2, c2) in itertools.combinations_with_replacement(outs, 2):
+                # across different paths only argument values in SafeParams are comparable (which error occurred is control flow, not
+                # data of an argument); error parameters and safe causes are compared between two runs of the same path
+                common = [k for k in o1 if k in o2 and (s1 is s2 or k.startswith('safe_params.'))]
+                if not common:
+                    continue
+                npairs += 1
+                pc2 = [rename(c, mapping) for c in s2.pc]
+                diffs = []
+                for k in common:
+                    diffs.append((k, differs(o1[k], rename(o2[k], mapping))))
+                cond = z3.And(*pc2, agree, z3.Or(*[d for _, d in diffs]))
+                m = dec.decide(f'{ename}:pair{npairs}:safe-observations-independent-of-unsafe-inputs', s1, cond, channels=common)
+                if m is not None:
+                    leak = [k for k, d in diffs if z3.is_true(m.eval(d, True))]
+                    if __import__('os').environ.get('C09_DEBUG'):
+                        for k in leak:
+                            print('DEBUG', k, repr(o1[k])[:300], '|||', repr(rename(o2[k], mapping))[:300])
+                    report(rep, ename, e, params, m, prime, leak)
+            # positive part: decoded safe arguments are logged under their declared names
+            for (s1, k1, o1, c1) in outs:
+                if k1 == 'ok':
+                    want = {'safe_params.' + lg for lg in SAFE_ARGS[ename].values()}
+                    got = {k for k in o1 if k.startswith('safe_params.')}
+                    if got != want:
+                        def names_battery(ename=ename, want=want):
+                            a = {'op': 'endpoint', 'endpoint': 'e1', 'path': {'pathWire': '37'}, 'query': [['queryWire', '61']], 'headers': [['x-foo', '37'], ['authorization', '42656172657220616263']]}
+                            b = {'op': 'endpoint', 'endpoint': 'e2', 'path': {'p': '78'}, 'query': [['optWire', '35']], 'headers': [['x-bar', '7a'], ['cookie', '544f4b454e3d616263']]}
+                            out = []
+                            for o, r in zip((a, b), replay([a, b])):
+                                keys = sorted('safe_params.' + x.split('=')[0] for x in r.get('safe_params', []))
+                                exp = sorted('safe_params.' + lg for lg in SAFE_ARGS[o['endpoint']].values())
+                                if not r.get('ok') or keys != exp:
+                                    out.append(f'{o["endpoint"]}: native safe params {keys}, declared {exp} ({r.get("ok")})')
+                            return out
+                        rep.structural('C09:safe-params-names', f'endpoint {ename}: on success the safe-parameter set has keys {sorted(got)}, declared safe arguments are {sorted(want)}', {'got': sorted(got)}, names_battery)
+            rep.extra.setdefault('pairs', {})[ename] = npairs
+            if not npairs:
+                rep.inconc(f'vacuity: C09 {ename} compared no pair of outcomes')
+            finish_engine(rep, it)
     run_token_debug(rep)
     # twins: replay two concrete requests differing only in unsafe data and compare the real safe observations
     a = {'op': 'endpoint', 'endpoint': 'e1', 'path': {'pathWire': '37'}, 'query': [['queryWire', '61']], 'headers': [['x-foo', '7a7a'], ['authorization', '42656172657220616263']]}
